@@ -599,9 +599,15 @@ def signature(case, detail):
     return "%s:%s" % (ID, detail.get("kind") if isinstance(detail, dict) else str(detail)[:40])
 
 
+_shrunk = set()
+
+
 def shrink(ctx, case, detail):
     from .. import pool
     want = detail.get("kind") if isinstance(detail, dict) else None
+    if want in _shrunk:  # one minimised witness per kind of violation is reported
+        return case, detail
+    _shrunk.add(want)
     if not case.get("ops") or len(case["ops"]) < 2:
         return case, detail
 
